@@ -11,6 +11,29 @@ fn main() {
   let comp = std::env::args().nth(1).unwrap_or_else(|| "stack".into());
   let par: usize = std::env::var("VERIF_E2E_PAR").ok().and_then(|s| s.parse().ok()).unwrap_or(24);
   std::panic::set_hook(Box::new(|_| {}));
+  // `VERIF_URING=<recv bufs>x<recv size>x<send bufs>x<send size>[,zc][,noms]`: start the global io_uring backend (a per-process
+  // singleton) with these pool sizes; sockets opt in with `uring=1`.
+  if let Ok(spec) = std::env::var("VERIF_URING") {
+    let mut it = spec.split(',');
+    let dims: Vec<usize> = it.next().unwrap_or("").split('x').filter_map(|x| x.parse().ok()).collect();
+    let flags: Vec<&str> = it.collect();
+    if dims.len() == 4 {
+      let cfg = rzmq::uring::UringConfig {
+        ring_entries: 256,
+        default_send_zerocopy: flags.contains(&"zc"),
+        default_recv_multishot: !flags.contains(&"noms"),
+        default_recv_buffer_count: dims[0],
+        default_recv_buffer_size: dims[1],
+        default_send_buffer_count: dims[2],
+        default_send_buffer_size: dims[3],
+        ..Default::default()
+      };
+      match rzmq::uring::initialize_uring_backend(cfg) {
+        Ok(()) => eprintln!("uring-backend=on"),
+        Err(e) => eprintln!("uring-backend=unavailable {}", e),
+      }
+    }
+  }
   if std::env::var("VERIF_TRACE").is_ok() {
     let _ = tracing_subscriber::fmt().with_max_level(tracing::Level::DEBUG).with_writer(std::io::stderr).try_init();
   }
